@@ -174,6 +174,14 @@ def exc_sig(exc: BaseException) -> dict:
     return {"exc": type(exc).__name__, "frame": innermost_lib_frame(exc)}
 
 
+def raised_in_field_routine(exc: BaseException) -> bool:
+    """True if the innermost magpylib frame of the traceback is one of the closed-form field routines
+    (magpylib/_src/fields/field_BH_*.py, special_*.py).  Such an exception is the subject of C15 (every finite input
+    yields a finite field, no exception); the relation checks count the case as inconclusive instead of reporting it
+    under their own property."""
+    return innermost_lib_frame(exc).startswith(("special_", "field_BH_"))
+
+
 # --------------------------------------------------------------------------------------
 # evaluation context (per worker)
 
